@@ -62,7 +62,7 @@ fn take3<X>(n: usize, a: X, b: X, c: X) -> Vec<X> {
 #[kani::stub(std::sync::Arc::drop_slow, leak_arc)]
 #[kani::stub(crate::runtime_scope::RuntimeScope::eval, mini_eval)]
 #[kani::unwind(5)]
-fn c01_param_binding_t() {
+fn c01_param_binding_x() {
     let rt: Rt = no_limits();
     let parent = empty_scope(&rt); // template id 1
     let p: usize = kani::any();
@@ -120,7 +120,7 @@ fn sym_cell(tag: i64, max_depth: usize, rt: &Rt) -> (MCell, TemplatedEvaluationC
 #[kani::stub(crate::xvalue::ManagedXValue::new, crate::xvalue::verif_kani::value_new_unlimited)]
 #[kani::stub(std::sync::Arc::drop_slow, leak_arc)]
 #[kani::unwind(4)]
-fn c03_pending_capture_resolution_t() {
+fn c03_pending_capture_resolution_x() {
     let rt: Rt = no_limits();
     let tpl: Rc<RuntimeScopeTemplate<P, P, P>> = bare_template();
     // level 0: two plain values
@@ -187,7 +187,7 @@ fn c03_pending_capture_resolution_t() {
 #[kani::stub(crate::xvalue::ManagedXValue::new, crate::xvalue::verif_kani::value_new_unlimited)]
 #[kani::stub(std::sync::Arc::drop_slow, leak_arc)]
 #[kani::unwind(4)]
-fn c03_capture_from_spec_t() {
+fn c03_capture_from_spec_x() {
     let rt: Rt = no_limits();
     let tpl: Rc<RuntimeScopeTemplate<P, P, P>> = bare_template();
     let g_init: bool = kani::any();
